@@ -551,6 +551,527 @@ def run(repo: Repo, rep: Report) -> None:  # noqa: F811
         raise AnalysisError("no inherited-and-extended container found in the parser modules (rdfxml literal_element_start was one)")
 
 
+# ---------------------------------------------------------------------------------------------------------------------
+# parser side: token tables (regular expressions, character sets) against the grammars, and necessary conditions on the
+# hand-written scanners / IRI resolvers.  Helpers: vlib/h_c05.py
+# ---------------------------------------------------------------------------------------------------------------------
+LINE_SYNTAX_PARSERS = ("rdflib.plugins.parsers.ntriples", "rdflib.plugins.parsers.nquads", "rdflib.plugins.parsers.patch",
+                       "rdflib.plugins.parsers.notation3", "rdflib.plugins.parsers.trig")
+CR, LF = "\r", "\n"
+
+
+def _parser_modules(repo: Repo) -> list:
+    return [repo.mod(m) for m in sorted(repo.modules) if m.startswith("rdflib.plugins.parsers.")]
+
+
+def token_regex_rules(repo: Repo, rep: Report) -> None:
+    from vlib import h_c05 as H
+
+    mods = _parser_modules(repo)
+    regexes = [(m, r) for m in mods for r in H.module_regexes(repo, m)]
+    if len(regexes) < 15:
+        raise AnalysisError("only %d regular expressions found in the parser modules (ntriples and notation3 compile 25)" % len(regexes))
+
+    # (i) white space between the terms of a statement is optional
+    R = "C05.i-separator-white-space-is-optional"
+    rep.rule(R, "N-Triples / N-Quads / RDF Patch parsers: a pattern handed to eat() that consists of white space only accepts the empty string. The grammars have no "
+                "mandatory white space (`triple ::= subject predicate object '.'`): <s><p><o>. is a legal line, so a separator pattern with a minimum width of 1 rejects it", floor=8)
+    ws_chars = [(9, 13), (32, 32)]
+    for m in mods:
+        for q, f in m.functions():
+            for c in own_nodes(f):
+                if not (isinstance(c, ast.Call) and isinstance(c.func, ast.Attribute) and c.func.attr == "eat" and len(c.args) == 1):
+                    continue
+                rx = H.resolve_regex(repo, m, c.args[0])
+                if rx is None:
+                    continue
+                sets = [H.class_set(op, av, rx.flags) for op, av in H.regex_items(rx.sp)]
+                sets = [s for s in sets if s is not None]
+                if not sets or any(H.iv_minus(s, ws_chars) for s in sets):
+                    continue  # not a pure white-space pattern
+                ok = rx.min_width() == 0
+                rep.ob(R, m, q, "eat(<%s>)" % rx.pattern, ok, "optional" if ok else
+                       "the separator pattern %r needs at least %d character(s): the legal line `<http://a/s><http://a/p><http://a/o>.` is rejected" % (rx.pattern, rx.min_width()), node=c)
+                rep.analysed("%s:%s" % (m.rel, q))
+
+    # (j) blank node labels: the classes of the token cover the grammar's name characters
+    R = "C05.j-blank-node-label-classes-cover-the-grammar"
+    rep.rule(R, "a token pattern for blank node labels (it starts with the literal `_:`) follows BLANK_NODE_LABEL ::= '_:' (PN_CHARS_U | [0-9]) ((PN_CHARS | '.')* PN_CHARS)?: "
+                "its first character class contains PN_CHARS_U and the digits, every later class contains PN_CHARS (both include the non-ASCII ranges of PN_CHARS_BASE; "
+                "PN_CHARS adds U+00B7, U+0300-036F, U+203F-2040). A narrower class stops the label at the first such character: `_:b\u00e9 <p> <o> .` is rejected", floor=2)
+    for m, rx in regexes:
+        top = list(rx.sp)
+        if not (len(top) >= 2 and str(top[0][0]) == "LITERAL" and top[0][1] == ord("_") and str(top[1][0]) == "LITERAL" and top[1][1] == ord(":")):
+            continue
+        classes = [(op, av) for op, av in H.regex_items(rx.sp) if str(op) == "IN"]
+        if not classes:
+            rep.ob(R, m, rx.label, "no character class after `_:`", False, "the label pattern %r has no character class to compare with the grammar" % rx.pattern, node=rx.node)
+        for k, (op, av) in enumerate(classes):
+            need = H.iv_union(H.PN_CHARS_U, H.DIGITS) if k == 0 else H.PN_CHARS
+            missing = H.iv_minus(need, H.class_set(op, av, rx.flags))
+            what = "first character" if k == 0 else "character class %d" % (k + 1)
+            rep.ob(R, m, rx.label, "%s of the label" % what, not missing, "covers %s" % ("PN_CHARS_U | [0-9]" if k == 0 else "PN_CHARS") if not missing else
+                   "the %s of %s does not accept %s, which the grammar allows there: a label such as `_:%sb%s` is cut short or rejected"
+                   % (what, rx.label, H.iv_show(missing), "" if k else chr(missing[0][0]), chr(missing[0][0]) if k else ""), node=rx.node)
+
+    # (k) negated classes exclude ASCII characters only
+    R = "C05.k-negated-classes-exclude-only-ascii"
+    rep.rule(R, "in the token patterns of the parsers a negated character class ([^...]) excludes ASCII characters only. Every terminal the grammars define by exclusion "
+                "(IRIREF: #x00-#x20 < > \" { } | ^ ` \\; the string terminals; comments) excludes ASCII characters; a class that also excludes non-ASCII ones - "
+                "typically through \\s, which for str patterns is every Unicode white space: U+0085, U+00A0, U+2000-200A, U+3000 ... - rejects a legal document "
+                "(<http://a/b\u00a0c> is a legal IRIREF and rdflib's own N-Triples output contains it raw)", floor=7)
+    for m, rx in regexes:
+        for op, av in H.regex_items(rx.sp):
+            if not H.is_negated(op, av):
+                continue
+            excluded = H.iv_compl(H.class_set(op, av, rx.flags))
+            bad = H.iv_minus(excluded, [(0, 0x7F)])
+            rep.ob(R, m, rx.label, "[^ %s ] in %s" % (H.iv_show(excluded, 12), rx.pattern[:60]), not bad, "ASCII only" if not bad else
+                   "the class excludes the non-ASCII characters %s%s: text containing one of them (e.g. U+%04X) is legal where the grammar excludes only ASCII characters, and is rejected"
+                   % (H.iv_show(bad), " (through a Unicode-wide category escape such as \\s)" if H.has_category(op, av) else "", bad[0][0]), node=rx.node)
+
+    # (l) a lone CR ends a line, as LF and CR LF do
+    R = "C05.l-cr-and-lf-are-both-line-ends"
+    rep.rule(R, "the parsers of the line / token syntaxes treat CR and LF alike (EOL ::= [#xD#xA]+; white space is #x20 #x9 #xD #xA; a comment ends at either): "
+                "(1) a character class - or, in a pattern that names line ends, `.` - contains LF iff it contains CR; (2) a pattern (or an alternation in it) that matches "
+                "\"\\n\" alone matches \"\\r\" alone, and vice versa; (3) a constant character set used in a membership test of a scanner contains LF iff it contains CR. "
+                "Otherwise a document with CR-only line ends loses the statements after a comment (`# c\\r<s> <p> <o> .`) or is rejected", floor=18)
+    for m, rx in regexes:
+        items = list(H.regex_items(rx.sp))
+        sets = [(op, av, H.class_set(op, av, rx.flags)) for op, av in items]
+
+        def eol_aware(op, av, s) -> bool:
+            """the item singles out a line end: a literal CR / LF, a class that contains one, a negated class (or `.`) that excludes one"""
+            has = (H.iv_has(s, 10), H.iv_has(s, 13))
+            return not all(has) if (H.is_negated(op, av) or str(op) == "ANY") else any(has)
+
+        # the pattern is about line ends: it has a literal CR / LF, or a negated class that excludes nothing but line ends
+        names_eol = any(s is not None and ((str(op) == "LITERAL" and av in (10, 13)) or (str(op) in ("IN", "NOT_LITERAL") and H.is_negated(op, av)
+                        and not H.iv_minus(H.iv_compl(s), [(10, 10), (13, 13)]))) for op, av, s in sets)
+        for op, av, s in sets:
+            o = str(op)
+            if s is None or o == "LITERAL" or not eol_aware(op, av, s) or (o == "ANY" and not names_eol):
+                continue
+            has_lf, has_cr = H.iv_has(s, 10), H.iv_has(s, 13)
+            shown = "." if o == "ANY" else ("[^ %s ]" % H.iv_show(H.iv_compl(s), 10) if H.is_negated(op, av) else "[ %s ]" % H.iv_show(s, 10))
+            ok = has_lf == has_cr
+            lf_special = (not has_lf) if (H.is_negated(op, av) or o == "ANY") else has_lf
+            rep.ob(R, m, rx.label, "%s in %s" % (shown, rx.pattern[:60]), ok, "CR and LF alike" if ok else
+                   "%s treats %s as a line end but not %s: a comment / line that ends in a lone %s is not ended there (`# c\\r<s> <p> <o> .` loses the statement)"
+                   % (shown, "LF" if lf_special else "CR", "CR" if lf_special else "LF", "CR" if lf_special else "LF"), node=rx.node)
+        subs = [("the pattern", rx.sp)] + [("alternation %d" % (k + 1), [(op, av)]) for k, (op, av) in enumerate(x for x in items if str(x[0]) == "BRANCH")]
+        for what, sp in subs:
+            lang = H.bounded_language(sp, rx.flags, (CR, LF, "x"), 2)
+            if lang is None or not ({CR, LF} & lang):
+                continue
+            ok = {CR, LF} <= lang
+            rep.ob(R, m, rx.label, "%s of %s matches %s" % (what, rx.pattern[:60], sorted(repr(x) for x in lang & {CR, LF, CR + LF})), ok, "CR, LF alike" if ok else
+                   "%s matches %s alone but not %s: a lone %s is not taken as a line end" % (what, "LF" if LF in lang else "CR", "CR" if LF in lang else "LF", "CR" if LF in lang else "LF"), node=rx.node)
+    for name in LINE_SYNTAX_PARSERS:
+        m = repo.mod(name)
+        for q, f in m.functions():
+            seen_sets: set = set()
+            for c in own_nodes(f):
+                if not (isinstance(c, ast.Compare) and len(c.ops) == 1 and isinstance(c.ops[0], (ast.In, ast.NotIn))):
+                    continue
+                cs = H.const_charset(repo, m, c.comparators[0])
+                if cs is None or not ({CR, LF} & cs) or norm(c.comparators[0]) in seen_sets:
+                    continue
+                seen_sets.add(norm(c.comparators[0]))
+                ok = {CR, LF} <= cs
+                rep.ob(R, m, q, "%s %s" % ("in" if isinstance(c.ops[0], ast.In) else "not in", norm(c.comparators[0])[:70]), ok, "CR and LF alike" if ok else
+                       "the character set contains %s but not %s: the scanner treats a lone %s differently from the other line end" % (
+                           "LF" if LF in cs else "CR", "CR" if LF in cs else "LF", "CR" if LF in cs else "LF"), node=c)
+                rep.analysed("%s:%s" % (m.rel, q))
+
+
+def input_source_rules(repo: Repo, rep: Report) -> None:
+    # (m) bytes are decoded without newline translation
+    R = "C05.m-bytes-are-decoded-without-newline-translation"
+    rep.rule(R, "rdflib.parser: every TextIOWrapper that turns a byte source into the character stream of an InputSource is created with newline=\"\". The default "
+                "(universal newlines) rewrites CR and CR LF to LF while decoding, so a literal \"\"\"a\\r\\nb\"\"\" (or \"a&#13;b\" written raw) given as bytes / file parses to a "
+                "different graph than the same document given as str. (JSON syntaxes cannot contain a raw line end inside a string; their wrappers are not in scope.)", floor=2)
+    m = repo.mod("rdflib.parser")
+    for q, f in m.functions():
+        for c in own_nodes(f):
+            if isinstance(c, ast.Call) and norm(c.func).split(".")[-1] == "TextIOWrapper":
+                nl = [k.value for k in c.keywords if k.arg == "newline"]
+                if len(c.args) >= 4:
+                    nl.append(c.args[3])
+                ok = bool(nl) and all(isinstance(v, ast.Constant) and v.value == "" for v in nl)
+                rep.ob(R, m, q, c, ok, "newline=\"\"" if ok else
+                       "the byte stream is decoded with universal-newline translation: CR / CR LF inside a literal become LF for bytes and file input, not for str input", node=c)
+                rep.analysed("%s:%s" % (m.rel, q))
+
+
+def document_id_rule(repo: Repo, rep: Report) -> None:
+    # (o) the document id is made absolute before it is used as an IRI
+    R = "C05.o-document-id-is-made-absolute"
+    rep.rule(R, "in every parser the id of the source document (getPublicId() / getSystemId(): for an open file it is the bare path) reaches IRI resolution only through "
+                "<graph>.absolutize(...); other uses are error messages, truth tests and taking the fragment. A raw id used as base gives scheme-less IRIs: "
+                "parse(open('/tmp/x/doc.rdf','rb'), format='xml') with rdf:about=\"rel\" yields </tmp/x/rel> where the Turtle parser yields <file:///tmp/x/rel>", floor=8)
+    for m in _parser_modules(repo):
+        for q, f in m.functions():
+            srcs = [c for c in own_nodes(f) if isinstance(c, ast.Call) and isinstance(c.func, ast.Attribute) and c.func.attr in ("getPublicId", "getSystemId") and not c.args]
+            for s in srcs:
+                verdict = _use_of_document_id(m, q, f, s, 0)
+                bad = [v for v in verdict if v.startswith("raw")]
+                rep.ob(R, m, q, "%s -> %s" % (norm(s), sorted(set(v.split(":")[0] for v in verdict)) or ["unused"]), not bad,
+                       "; ".join(sorted(set(verdict))) if not bad else
+                       "the document id is used as an IRI without being made absolute (%s): for a file object source it is a bare path, relative IRIs of the document then resolve to scheme-less IRIs" % bad[0], node=s)
+                rep.analysed("%s:%s" % (m.rel, q))
+
+
+def _use_of_document_id(m, q: str, f: ast.AST, node: ast.AST, depth: int) -> list[str]:
+    """how the value of expression `node` is used: 'clean' (argument of absolutize), 'message', 'fragment', 'test', or 'raw:<construct>'"""
+    if depth > 4:
+        return ["raw:too deep"]
+    child = node
+    for p in m.parents(node):
+        if isinstance(p, (ast.BoolOp, ast.IfExp)) and not (isinstance(p, ast.IfExp) and child is p.test):
+            child = p
+            continue
+        if isinstance(p, ast.IfExp) or (isinstance(p, (ast.If, ast.While)) and child is p.test) or isinstance(p, ast.UnaryOp) and isinstance(p.op, ast.Not):
+            return ["test"]
+        if isinstance(p, ast.Compare) and all(isinstance(x, ast.Constant) and x.value is None for x in p.comparators):
+            return ["test"]
+        if isinstance(p, (ast.JoinedStr, ast.FormattedValue)) or (isinstance(p, ast.BinOp) and isinstance(p.op, ast.Mod)) or (isinstance(p, ast.Tuple) and isinstance(m.parent.get(id(p)), ast.BinOp)):
+            return ["message"]
+        if isinstance(p, ast.Call):
+            if isinstance(p.func, ast.Attribute) and p.func.attr == "absolutize":
+                return ["clean"]
+            up = m.parent.get(id(p))
+            if isinstance(up, ast.Attribute) and up.attr == "fragment":
+                return ["fragment"]
+            return ["raw:%s" % norm(p)[:60]]
+        if isinstance(p, (ast.Assign, ast.AnnAssign)):
+            tg = p.targets if isinstance(p, ast.Assign) else [p.target]
+            if len(tg) == 1 and isinstance(tg[0], ast.Name):
+                out: list[str] = []
+                for n in own_nodes(f):
+                    if isinstance(n, ast.Name) and isinstance(n.ctx, ast.Load) and n.id == tg[0].id:
+                        out += _use_of_document_id(m, q, f, n, depth + 1)
+                return out
+            return ["raw:%s" % norm(p)[:60]]
+        if isinstance(p, ast.Return):
+            # the value is returned: follow the calls of this method in its class
+            out = []
+            cls = q.rsplit(".", 1)[0] if "." in q else None
+            for q2, f2 in m.functions():
+                if cls and q2.startswith(cls + "."):
+                    for c in own_nodes(f2):
+                        if isinstance(c, ast.Call) and isinstance(c.func, ast.Attribute) and c.func.attr == f.name and isinstance(c.func.value, ast.Name) and c.func.value.id == "self":  # type: ignore[attr-defined]
+                            out += _use_of_document_id(m, q2, f2, c, depth + 1)
+            return out
+        if isinstance(p, ast.stmt):
+            return ["raw:%s" % norm(p)[:60]]
+        child = p
+    return ["raw:?"]
+
+
+def rdfxml_rules(repo: Repo, rep: Report) -> None:
+    # (n) IRI-valued attribute values are resolved against the in-scope base
+    R = "C05.n-rdfxml-attribute-iris-are-resolved"
+    rep.rule(R, "RDF/XML parser: an IRI node made from an attribute VALUE of the document (rdf:about, rdf:resource, rdf:datatype, rdf:ID, the value of an rdf:type property "
+                "attribute: anything read from the attribute dictionary convert() returns) is made by absolutize(), which resolves it against the in-scope xml:base; a bare "
+                "URIRef(<value>) keeps a relative reference relative (<rdf:Description rdf:about=\"http://a/s\"><ex:p rdf:type=\"T\"/> with xml:base http://b/ gives <T>, not <http://b/T>)", floor=5)
+    m = repo.mod("rdflib.plugins.parsers.rdfxml")
+    for meth, f in m.methods("RDFXMLHandler").items():
+        q = "RDFXMLHandler." + meth
+        dicts = set()
+        for st in own_nodes(f):
+            if isinstance(st, ast.Assign) and isinstance(st.value, ast.Call) and isinstance(st.value.func, ast.Attribute) and st.value.func.attr == "convert" \
+                    and isinstance(st.targets[0], ast.Tuple) and len(st.targets[0].elts) == 2 and isinstance(st.targets[0].elts[1], ast.Name):
+                dicts.add(st.targets[0].elts[1].id)
+        if not dicts:
+            continue
+        rep.analysed("%s:%s" % (m.rel, q))
+
+        def is_src(e: ast.AST) -> bool:
+            return (isinstance(e, ast.Subscript) and isinstance(e.value, ast.Name) and e.value.id in dicts and isinstance(e.ctx, ast.Load)) or (
+                isinstance(e, ast.Call) and isinstance(e.func, ast.Attribute) and e.func.attr == "get" and isinstance(e.func.value, ast.Name) and e.func.value.id in dicts)
+
+        tainted: set[str] = set()
+        for _ in range(4):
+            for st in own_nodes(f):
+                if isinstance(st, ast.Assign) and any(is_src(x) or (isinstance(x, ast.Name) and x.id in tainted) for x in ast.walk(st.value)) \
+                        and not (isinstance(st.value, ast.Call) and norm(st.value.func).split(".")[-1] in ("absolutize", "URIRef", "Literal", "BNode")):
+                    for t in st.targets:
+                        for x in ast.walk(t):
+                            if isinstance(x, ast.Name) and not isinstance(t, (ast.Subscript, ast.Attribute)):
+                                tainted.add(x.id)
+        resolver_names = {"absolutize"} | {st.targets[0].id for st in own_nodes(f) if isinstance(st, ast.Assign) and isinstance(st.targets[0], ast.Name)
+                                           and isinstance(st.value, ast.Attribute) and st.value.attr == "absolutize"}
+        for c in own_nodes(f):
+            if not (isinstance(c, ast.Call) and c.args):
+                continue
+            fn = c.func.attr if isinstance(c.func, ast.Attribute) else (c.func.id if isinstance(c.func, ast.Name) else "")
+            if fn not in resolver_names and fn != "URIRef":
+                continue
+            if not any(is_src(x) or (isinstance(x, ast.Name) and x.id in tainted) for x in ast.walk(c.args[0])):
+                continue
+            ok = fn in resolver_names
+            rep.ob(R, m, q, "%s(%s)" % ("absolutize" if ok else fn, canon(c.args[0])), ok, "resolved against the in-scope base" if ok else
+                   "the attribute value %s becomes an IRI without being resolved against the in-scope base: a relative reference stays relative" % norm(c.args[0]), node=c)
+
+
+def n3_scanner_rules(repo: Repo, rep: Report) -> None:
+    from vlib import h_c05 as H
+    from vlib.cfg import CFG
+
+    m = repo.mod("rdflib.plugins.parsers.notation3")
+    methods = m.methods("SinkParser")
+    esc = H.const_charset(repo, m, ast.Name(id="escapeChars", ctx=ast.Load()))
+    not_name = H.const_charset(repo, m, ast.Name(id="_notNameChars", ctx=ast.Load()))
+    if not esc or not not_name:
+        raise AnalysisError("notation3: the character tables escapeChars / _notNameChars are no longer foldable constants")
+
+    def text_index(e: ast.AST, back: int):
+        """(text, index name) if e is <text>[<name> - back]"""
+        if isinstance(e, ast.Subscript) and isinstance(e.slice, ast.BinOp) and isinstance(e.slice.op, ast.Sub) and isinstance(e.slice.right, ast.Constant) \
+                and e.slice.right.value == back and isinstance(e.slice.left, ast.Name):
+            return norm(e.value), e.slice.left.id
+        return None
+
+    # (p) a look-behind after an escape-aware scan asks whether the character was escaped
+    R = "C05.p-look-behind-after-an-escape-aware-scan"
+    rep.rule(R, "Turtle/N3 scanner: after a loop that scans a name and honours backslash escapes (it compares a character with '\\\\'), a test that looks back at the last "
+                "character consumed (text[i - 1] == c, c one of the characters PN_LOCAL_ESC can escape) to give it back as punctuation also tests that the character before it "
+                "is not the backslash (text[i - 2]). Without it the escaped dot of `ex:a\\. ` is taken for the end of the statement and the name loses it", floor=1)
+    for meth, f in methods.items():
+        q = "SinkParser." + meth
+        loops = [w for w in own_nodes(f) if isinstance(w, ast.While) and any(
+            isinstance(x, ast.Compare) and any(isinstance(y, ast.Constant) and y.value == "\\" for y in [x.left] + x.comparators) for x in ast.walk(w))]
+        if not loops:
+            continue
+        for st in own_nodes(f):
+            if not isinstance(st, (ast.If, ast.While)) or not any(st.lineno > (w.end_lineno or 0) for w in loops):
+                continue
+            for x in ast.walk(st.test):
+                if not (isinstance(x, ast.Compare) and len(x.ops) == 1 and isinstance(x.ops[0], ast.Eq) and isinstance(x.comparators[0], ast.Constant)
+                        and x.comparators[0].value in esc):
+                    continue
+                ti = text_index(x.left, 1)
+                if ti is None:
+                    continue
+                guards = [y for y in ast.walk(st.test) if isinstance(y, ast.Compare) and len(y.ops) == 1 and text_index(y.left, 2) == ti
+                          and isinstance(y.comparators[0], ast.Constant) and y.comparators[0].value == "\\"]
+                ok = bool(guards)
+                rep.ob(R, m, q, canon(st.test), ok, "asks whether the character was escaped" if ok else
+                       "%s is compared with %r after a scan that honours backslash escapes, without looking at the character before it: the escaped %r of a local name "
+                       "(`ex:a\\%s`) is treated as punctuation and cut off the name" % (norm(x.left), x.comparators[0].value, x.comparators[0].value, x.comparators[0].value), node=st)
+                rep.analysed("%s:%s" % (m.rel, q))
+
+    # (q) a keyword ends at a terminator, but a terminator that can continue a name needs a look-ahead
+    R = "C05.q-keyword-end-needs-a-look-ahead-for-name-characters"
+    rep.rule(R, "Turtle/N3 scanner: a test that accepts a keyword (`a`, `true`, `false`, `is` ...) because the next character is in a terminator table also looks one character "
+                "further when that table contains a character that may continue a name (a character outside _notNameChars: the dot). PN_PREFIX allows inner dots, so `a.b:c`, "
+                "`true.x:c` are prefixed names: without the look-ahead their first letters are read as the keyword", floor=1)
+    for meth, f in methods.items():
+        q = "SinkParser." + meth
+        for st in own_nodes(f):
+            if not isinstance(st, ast.If):
+                continue
+            accepts = any(isinstance(r, ast.Return) and r.value is not None and not isinstance(r.value, ast.Constant)
+                          and not (isinstance(r.value, ast.UnaryOp) and isinstance(r.value.operand, ast.Constant)) for b in st.body for r in ast.walk(b))
+            if not accepts:
+                continue
+            for x in ast.walk(st.test):
+                if not (isinstance(x, ast.Compare) and len(x.ops) == 1 and isinstance(x.ops[0], ast.In) and isinstance(x.left, ast.Subscript) and isinstance(x.comparators[0], ast.Name)):
+                    continue
+                table = H.const_charset(repo, m, x.comparators[0])
+                if table is None or not (table - not_name):
+                    continue
+                exprs = H.closure_exprs(f, st.test)
+                ok = any(isinstance(n, ast.Name) and n.id == "_notNameChars" for e in exprs for n in ast.walk(e))
+                rep.ob(R, m, q, "%s in %s" % (canon(x.left), x.comparators[0].id), ok, "with a look-ahead against _notNameChars" if ok else
+                       "the token is accepted when the next character is in %s, which contains %s - a character that may continue a name - and nothing looks at the character "
+                       "after it: `a.b:c <p> <o> .` is read as the keyword `a` followed by garbage" % (x.comparators[0].id, sorted(table - not_name)), node=st)
+                rep.analysed("%s:%s" % (m.rel, q))
+
+    # (r) white space may separate a string from its ^^datatype / @language
+    R = "C05.r-white-space-between-a-string-and-its-suffix"
+    rep.rule(R, "Turtle/N3 scanner: after a quoted string has been read (strconst), every test for the `^^` of a datatype or the `@` of a language tag is reached only through "
+                "a skipSpace() call made after the string. String, `^^`/LANGTAG and the datatype IRI are separate tokens (RDFLiteral ::= String (LANGTAG | '^^' iri)?), white space "
+                "and comments may stand between them: `\"1\" ^^xsd:integer` is legal", floor=2)
+    for meth, f in methods.items():
+        q = "SinkParser." + meth
+        strs = [st for st in own_nodes(f) if isinstance(st, ast.stmt) and not isinstance(st, (ast.If, ast.While, ast.For, ast.Try, ast.With)) and any(
+            isinstance(c, ast.Call) and isinstance(c.func, ast.Attribute) and c.func.attr == "strconst" for c in ast.walk(st))]
+        if not strs:
+            continue
+        tests = [st for st in own_nodes(f) if isinstance(st, (ast.If, ast.While)) and any(
+            isinstance(x, ast.Compare) and isinstance(x.left, ast.Subscript) and any(isinstance(y, ast.Constant) and y.value in ("^^", "@") for y in x.comparators) for x in ast.walk(st.test))]
+        if not tests:
+            continue
+        g = CFG(f)
+        skips = {g.node_of(st) for st in own_nodes(f) if isinstance(st, ast.stmt) and not isinstance(st, (ast.If, ast.While, ast.For, ast.Try, ast.With)) and any(
+            isinstance(c, ast.Call) and isinstance(c.func, ast.Attribute) and c.func.attr == "skipSpace" for c in ast.walk(st))}
+        for s0 in strs:
+            n0 = g.node_of(s0)
+            after = g.reach(n0)
+            unskipped = g.reach(n0, avoid=skips & after)
+            for t in tests:
+                nt_ = g.node_of(t)
+                if nt_ not in after:
+                    continue
+                ok = nt_ not in unskipped
+                rep.ob(R, m, q, canon(t.test), ok, "reached through skipSpace()" if ok else
+                       "the test for the literal's suffix is reached from strconst() without a skipSpace(): `\"1\" ^^<http://www.w3.org/2001/XMLSchema#integer>` (white space or a "
+                       "comment between the string and ^^ / @) is rejected", node=t)
+                rep.analysed("%s:%s" % (m.rel, q))
+
+
+def string_resolver_rules(repo: Repo, rep: Report) -> None:
+    from vlib import h_c05 as H
+
+    # (s) a resolver that works on the strings follows RFC 3986 5.2
+    R = "C05.s-string-iri-resolver-works-on-the-five-components"
+    rep.rule(R, "an IRI resolver that works on the strings (no urljoin: notation3.join) decides on the components of RFC 3986: (1) the reference is returned unchanged "
+                "(`it has a scheme`) only by a test that knows all of '/', '?' and '#' as the delimiters that end the scheme search - a ':' in a query or fragment "
+                "(<?a:b>, <#a:b>) is not a scheme delimiter; (2) no result is the whole base string plus something: the base's fragment (and, unless the reference is "
+                "empty, its query) never take part (<#x> against <http://a/b#c> is <http://a/b#x>)", floor=2)
+    n = 0
+    for modname, q, what in IRI_RESOLVERS:
+        m = repo.mod(modname)
+        f = m.func(q)
+        if any(isinstance(c, ast.Call) and norm(c.func).split(".")[-1] == "urljoin" for c in own_nodes(f)):
+            continue
+        ps = H.params(f)
+        if len(ps) < 2:
+            raise AnalysisError("%s: expected (base, reference) parameters" % q)
+        base_p, ref_p = ps[0], ps[1]
+        for r in own_nodes(f):
+            if not isinstance(r, ast.Return) or r.value is None:
+                continue
+            if isinstance(r.value, ast.BinOp) and isinstance(r.value.op, ast.Add):
+                n += 1
+                leaves = H.add_leaves(r.value)
+                whole = [x for x in leaves if isinstance(x, ast.Name) and x.id == base_p]
+                rep.ob(R, m, q, "return %s" % canon(r.value)[:100], not whole, "assembled from components" if not whole else
+                       "the result is the whole base string plus %s: the base's fragment / query stay in the result (<#x> against <http://a/b#c> gives <http://a/b#c#x>)"
+                       % ", ".join(norm(x) for x in leaves if x not in whole), node=r)
+            elif isinstance(r.value, ast.Name) and r.value.id == ref_p:
+                guard = next((p for p in m.parents(r) if isinstance(p, ast.If)), None)
+                if guard is None:
+                    continue
+                n += 1
+                ev: set = set()
+                for e in H.closure_exprs(f, guard.test):
+                    for c in ast.walk(e):
+                        if isinstance(c, ast.Call) and isinstance(c.func, ast.Attribute) and c.func.attr in ("find", "index", "rfind", "split", "partition") and c.args:
+                            s = H.const_str(repo, m, c.args[0])
+                            if s:
+                                ev.update(s)
+                        if isinstance(c, ast.Compare) and isinstance(c.ops[0], (ast.In, ast.NotIn)):
+                            s = H.const_str(repo, m, c.left)
+                            if s:
+                                ev.update(s)
+                        if isinstance(c, ast.Call) and isinstance(c.func, ast.Attribute) and c.func.attr in ("match", "fullmatch", "search"):
+                            rx = H.resolve_regex(repo, m, c.func.value)
+                            if rx is not None:
+                                grp = next((av for op, av in H.regex_items(rx.sp) if str(op) == "SUBPATTERN" and av[0] == 1), None)
+                                for op, av in (H.regex_items(grp[-1]) if grp else []):
+                                    if H.is_negated(op, av):
+                                        ev.update(chr(lo) for lo, hi in H.iv_compl(H.class_set(op, av, rx.flags)) if lo == hi and lo < 128)
+                missing = {"/", "?", "#"} - ev
+                rep.ob(R, m, q, "return %s  if  %s" % (ref_p, canon(guard.test)[:80]), not missing, "scheme search ends at / ? #" if not missing else
+                       "the test that takes the reference for absolute looks for %s only, not for %s: <?a:b> and <#a:b> (a ':' in the query / fragment) are returned "
+                       "unresolved instead of being resolved against the base" % (sorted(ev), sorted(missing)), node=r)
+        rep.analysed("%s:%s" % (m.rel, q))
+    if n == 0:
+        raise AnalysisError("no string-based IRI resolver found (notation3.join was one)")
+
+    # (t) normpath("") is "."
+    R = "C05.t-normpath-only-on-a-non-empty-path"
+    rep.rule(R, "an IRI resolver normalises a URL path with posixpath.normpath only under a test that the path is not empty: normpath('') is '.', so against a base without "
+                "a path (<http://b>) the references '', '#f' and '?q' resolve to <http://b/.>, <http://b/.#f>, <http://b/.?q>", floor=1)
+    for m in [repo.mod(x) for x in sorted(repo.modules) if x.startswith("rdflib.plugins.parsers.") or x.startswith("rdflib.plugins.shared.")]:
+        for q, f in m.functions():
+            for c in own_nodes(f):
+                if not (isinstance(c, ast.Call) and norm(c.func).split(".")[-1] == "normpath" and len(c.args) == 1):
+                    continue
+                arg = norm(c.args[0])
+                ok, child = False, c
+                for p in m.parents(c):
+                    if isinstance(p, (ast.IfExp, ast.If)) and child is not p.test:
+                        in_true = child is p.body if isinstance(p, ast.IfExp) else any(child is s_ for s_ in p.body)
+                        t = p.test
+                        pos = norm(t) == arg or (isinstance(t, ast.Compare) and norm(t.left) == arg and isinstance(t.ops[0], ast.NotEq) and isinstance(t.comparators[0], ast.Constant) and t.comparators[0].value == "")
+                        neg = (isinstance(t, ast.UnaryOp) and isinstance(t.op, ast.Not) and norm(t.operand) == arg) or (
+                            isinstance(t, ast.Compare) and norm(t.left) == arg and isinstance(t.ops[0], ast.Eq) and isinstance(t.comparators[0], ast.Constant) and t.comparators[0].value == "")
+                        if (pos and in_true) or (neg and not in_true):
+                            ok = True
+                    if p is f:
+                        break
+                    child = p
+                rep.ob(R, m, q, "normpath(%s)" % canon(c.args[0]), ok, "only for a non-empty path" if ok else
+                       "normpath(%s) is also applied to an empty path and returns '.': <> against <http://b> resolves to <http://b/.>" % arg, node=c)
+                rep.analysed("%s:%s" % (m.rel, q))
+
+
+def list_building_rule(repo: Repo, rep: Report) -> None:
+    from vlib.cfg import CFG
+
+    # (u) a list cell is linked and filled in the same iteration
+    R = "C05.u-a-list-cell-is-linked-and-filled-together"
+    rep.rule(R, "a parser loop that builds an RDF collection links a new cell (add((cell, rdf:rest, next))) only on a path that also gives the new cell its rdf:first before "
+                "the iteration ends: an item that is skipped (`continue`: it converts to no RDF term, e.g. {\"@value\": null} in a JSON-LD @list) after the link was made leaves "
+                "a cell without rdf:first, and the next item links that cell to itself (rdf:rest pointing to its own subject)", floor=1)
+
+    def add_of(st: ast.AST, attr: str):
+        for c in ast.walk(st):
+            if isinstance(c, ast.Call) and isinstance(c.func, ast.Attribute) and c.func.attr == "add" and len(c.args) == 1 and isinstance(c.args[0], ast.Tuple) and len(c.args[0].elts) == 3:
+                p_, o_ = c.args[0].elts[1], c.args[0].elts[2]
+                if isinstance(p_, ast.Attribute) and p_.attr == attr and not (isinstance(o_, ast.Attribute) and o_.attr == "nil"):
+                    return c
+        return None
+
+    n = 0
+    for m in _parser_modules(repo):
+        for q, f in m.functions():
+            loops = [l for l in own_nodes(f) if isinstance(l, (ast.For, ast.While))]
+            if not loops:
+                continue
+            g = None
+            for loop in loops:
+                simple = [st for b in loop.body for st in ast.walk(b) if isinstance(st, ast.Expr)]
+                links = [st for st in simple if add_of(st, "rest") is not None]
+                if not links:
+                    continue
+                g = g or CFG(f)
+                fills = {g.node_of(st) for st in simple if add_of(st, "first") is not None}
+                for st in links:
+                    n += 1
+                    ok = bool(fills) and g.must_pass_after(g.node_of(st), fills, exits={g.node_of(loop), g.exit})
+                    rep.ob(R, m, q, canon(st), ok, "the cell gets its rdf:first in the same iteration" if ok else
+                           "after the new cell has been linked the iteration can end without an rdf:first for it (an item that yields no term is skipped later): "
+                           "[1, {\"@value\": null}] in a JSON-LD @list leaves a cell whose rdf:rest is itself", node=st)
+                    rep.analysed("%s:%s" % (m.rel, q))
+    if n == 0:
+        raise AnalysisError("no collection-building loop found in the parser modules (jsonld Parser._add_list was one)")
+
+
+_run_base4 = run
+
+
+def run(repo: Repo, rep: Report) -> None:  # noqa: F811
+    _run_base4(repo, rep)
+    rep.extra["explanation"] = rep.extra.get("explanation", "") + (
+        " Parser side (necessary conditions only, rules i-u): the token patterns of the N-Triples family and of the Turtle/N3 scanner agree with the grammars where a "
+        "class-level comparison decides it (optional separators, name characters of blank node labels, ASCII-only exclusions, CR = LF as line end); byte sources are decoded "
+        "without newline translation; RDF/XML attribute IRIs and the document id pass through absolutize(); the Turtle scanner's look-behind / look-ahead / skipSpace "
+        "obligations at three token boundaries; the string IRI resolver decides on RFC 3986 components; normpath is kept off empty paths; a collection cell is linked and "
+        "filled in one iteration. That the parsers accept EVERY legal document remains undecided.")
+    token_regex_rules(repo, rep)
+    input_source_rules(repo, rep)
+    rdfxml_rules(repo, rep)
+    document_id_rule(repo, rep)
+    n3_scanner_rules(repo, rep)
+    string_resolver_rules(repo, rep)
+    list_building_rule(repo, rep)
+
+
 _run_before_borrow = run
 
 
